@@ -808,6 +808,29 @@ def object_produce_specs():
     return out
 
 
+def replay_legacy(model, obligation):
+    """legacy_CPF_0x0001.produce on concrete records against the layout written out with struct"""
+    import struct
+    import cpppo
+    from cpppo.server.enip import parser
+    m = model or {}
+    cands = [dict(version=int(m.get('_g_version', 1)), family=int(m.get('_g_family', 2)), port=int(m.get('_g_port', 44818)), addr=int(m.get('_g_addr', 0x0a000001)), ip='10.0.0.9')]
+    cands += [dict(version=1, family=2, port=44818, addr=0xac100101, ip='172.16.1.1'), dict(version=1, family=2, port=0xaf12, addr=0x0a000001, ip='192.168.0.24'),
+              dict(version=7, family=-2, port=1, addr=0, ip='10.0.0.1'), dict(version=1, family=2, port=2222, addr=0xffffffff, ip='1.2.3.4')]
+    for c in cands:
+        if not (0 <= c['version'] <= 0xffff and -32768 <= c['family'] <= 32767 and 0 <= c['port'] <= 0xffff and 0 <= c['addr'] <= 0xffffffff):
+            continue
+        want = struct.pack('<HH', c['version'], 0) + struct.pack('>hHI', c['family'], c['port'], c['addr']) + b'\0' * 8 + c['ip'].encode('ascii').ljust(16, b'\0')[:16]
+        d = cpppo.dotdict(version=c['version'], sin_family=c['family'], sin_port=c['port'], sin_addr=c['addr'], ip_address=c['ip'])
+        try:
+            got = bytes(parser.legacy_CPF_0x0001.produce(d))
+        except Exception as e:
+            got = 'raised %s: %s' % (type(e).__name__, e)
+        if got != want:
+            return dict(confirmed=True, function='cpppo.server.enip.parser.legacy_CPF_0x0001.produce', input=c, observed=repr(got)[:200], required=repr(want))
+    return dict(confirmed=False)
+
+
 def legacy_spec():
     """legacy_CPF_0x0001.produce with both address forms present (numeric sin_addr and textual ip_address)"""
     def data(eng, name, st):
@@ -837,7 +860,7 @@ def legacy_spec():
                           'result == u16(_g_version if _g_version_given else 1) + u16(_g_unknown if _g_unknown_given else 0) + be(_g_family, 2) + be(_g_port, 2) '
                           '+ be(_g_addr, 4) + bytes_of(0, 0, 0, 0, 0, 0, 0, 0) + (_g_ip[:16] if len(_g_ip) >= 16 else _g_ip + zeros(16 - len(_g_ip)))'),
                          ('size', 'len(result) == 36')],
-                raises={}, modifies=[], inline=['produce'], hints=dict(funcs=WS.FUNCS),
+                raises={}, modifies=[], inline=['produce'], hints=dict(funcs=WS.FUNCS), replay=replay_legacy,
                 note='the branch taken when both address forms are in the record (a numeric sin_addr is encoded as it is, not derived from the text); '
                      'textual sin_addr (ipaddress module) and the missing-ip_address branch (runs the IPADDR parser) are bounded-only')
 
